@@ -206,10 +206,23 @@ const (
 )
 
 func GenVal(t *rapid.T, vt VT, lbl string, decoyTags []string) *Val {
+	return genVal(t, vt, lbl, decoyTags, false)
+}
+
+func genVal(t *rapid.T, vt VT, lbl string, decoyTags []string, small bool) *Val {
 	v := &Val{Route: rapid.IntRange(0, NumRoute-1).Draw(t, lbl+"Route")}
 	switch vt {
 	case TString, TRaw:
-		v.S, v.Decoy = GenStringBytes(t, lbl, decoyTags)
+		if small {
+			if len(decoyTags) > 0 && rapid.IntRange(0, 9).Draw(t, lbl+"SmallDecoy") < 2 {
+				v.S = []byte(rapid.SampledFrom(decoyTags).Draw(t, lbl+"DTag") + "=" + rapid.StringMatching(`[0-9]{1,3}`).Draw(t, lbl+"DVal"))
+				v.Decoy = true
+			} else {
+				v.S = genBytes(t, lbl, 1, 8)
+			}
+		} else {
+			v.S, v.Decoy = GenStringBytes(t, lbl, decoyTags)
+		}
 	case TInt:
 		if rapid.IntRange(0, 9).Draw(t, lbl+"Edge") < 4 {
 			v.I = rapid.SampledFrom(intEdges).Draw(t, lbl+"E")
@@ -238,6 +251,7 @@ func GenVal(t *rapid.T, vt VT, lbl string, decoyTags []string) *Val {
 
 // PopOpts steer population.
 type PopOpts struct {
+	Small        bool // short strings only (1-8 bytes)
 	Decoys       bool
 	NoTrailerPop bool
 	PresentPct   int // probability (percent) that a leaf is populated
@@ -275,7 +289,7 @@ func genPops(t *rapid.T, ns []*Node, po PopOpts, decoys []string, forceFirst boo
 		switch n.K {
 		case KField:
 			if force || rapid.IntRange(0, 99).Draw(t, lbl+"Present") >= 100-po.PresentPct {
-				p.V = GenVal(t, n.T, lbl+"V", decoys)
+				p.V = genVal(t, n.T, lbl+"V", decoys, po.Small)
 			}
 		case KComp:
 			p.Items = genPops(t, n.Items, po, decoys, force, depth+1, lbl)
